@@ -43,7 +43,7 @@ def subsets(items):
 
 
 def cases(tier):
-    meshes = ['M1', 'M4', 'M6', 'M8'] if tier == 'quick' else ['M1', 'M2', 'M3', 'M4', 'M5', 'M6', 'M7', 'M8', 'M9']
+    meshes = ['M1', 'M4', 'M6', 'M8'] if tier == 'quick' else ['M1', 'M2', 'M3', 'M4', 'M5', 'M6', 'M7', 'M8', 'M9', 'M10']
     out = []
     for mesh in meshes:
         for start_index, fill, transposed, coords_as in itertools.product((0, 1), ('nan', 'fillattr'), (False, True), ('var', 'coord')):
@@ -60,6 +60,13 @@ def cases(tier):
                     out.append(spec)
                     if coords_as == 'var' and not transposed and mode == 'declared' and len(supplied) in (0, 2, 4):
                         out.append({**spec, 'io': 'reopen'})
+                    if start_index == 1 and fill == 'fillattr' and coords_as == 'var':
+                        out.append({**spec, 'fill_value': 0})
+    if tier == 'thorough':
+        # one mesh above 46341 nodes (node count squared exceeds int32): derived tables only
+        nodes, faces = builders._lattice_mesh(222, 222)
+        out.append({'family': 'ugrid', 'mesh': 'lattice-222x222', 'nodes': nodes, 'faces': faces, 'nt': 1, 'nk': 1,
+                    'start_index': 0, 'fill': 'nan', 'transposed': False, 'supplied': [], 'edge_dim': 'declared', 'coords_as': 'var'})
     return out
 
 
